@@ -10,13 +10,16 @@ CONSTANTS Depth, Thin
 VARIABLE hist
 
 KeyRec(k) == [n |-> k[1], m |-> k[2], p |-> k[3]]
-Obs == [st |-> st', active |-> active', restart |-> restart',
+\* loose: Router allows other outcomes for the same input (alternatives are printed as separate behaviours)
+Obs == [loose |-> \/ last'.act = "wait" /\ \E n \in Nodes : st[n] = "lost" /\ ~open[n]
+                  \/ last'.act = "req" /\ last'.rep.a = "error" /\ last'.routed # {},
+        st |-> st', active |-> active', restart |-> restart',
         cache |-> SetToSeq({KeyRec(k) @@ [en |-> cache'[k], vis |-> Visible(k)] : k \in Keys}),
         rep |-> last'.rep, routed |-> last'.routed,
         out |-> SetToSeq({[c |-> c] @@ KeyRec(k) @@ [seq |-> last'.out[c][k]] :
                             c \in Conns, k \in {j \in Keys : \E d \in Conns : last'.out[d][j] # <<>>}}),
         opt |-> SetToSeq({[c |-> c] @@ KeyRec(k) : c \in Conns, k \in {j \in Keys : \E d \in Conns : j \in last'.opt[d]}}),
-        desc |-> IF last'.act = "desc" THEN Description ELSE [eq |-> "", parts |-> <<>>, mods |-> {}]]
+        desc |-> IF last'.act = "desc" THEN SetToSeq(Descriptions) ELSE <<>>]
 
 Rec(r) == hist' = Append(hist, r @@ [exp |-> Obs])
 
@@ -31,7 +34,7 @@ GNext ==
     \/ \E c \in ReqConns, kind \in Kinds, m \in ReqMods, p \in ReqPars, arg \in ReqArgs, ok \in BOOLEAN,
           x \in Values, ec \in UpErrs, cached \in BOOLEAN :
             /\ (kind = "do") = (p = "go")
-            /\ (kind = "read" => arg = 0) /\ (ok => ec = CHOOSE e \in UpErrs : TRUE) /\ (~ok => x = 0)
+            /\ (kind = "read" => arg = 0) /\ (ok => ec = CHOOSE e \in UpErrs : TRUE) /\ (~ok => x = CHOOSE v \in Values : TRUE)
             /\ (~(kind = "read" /\ ~ok) => cached)
             /\ Request(c, kind, m, p, arg, ok, x, ec, cached)
             /\ Rec([act |-> "req", c |-> c, k |-> kind, m |-> m, p |-> p, arg |-> arg, ok |-> ok, x |-> x, ec |-> ec])
